@@ -1,7 +1,7 @@
 (* C17 property theorems: statements only; every proof is [exact lemma]. *)
 From Coq Require Import String.
 From Gv Require Import lib.Bytes lib.Gql C17.Util C17.ValueSyntax C17.Base C17.Model C17.ModelV0 C17.Spec
-  C17.ProofsValue C17.ProofsFuel C17.ProofsJson C17.ProofsSpec C17.ProofsMain C17.Witness.
+  C17.ProofsValue C17.ProofsFuel C17.ProofsJson C17.ProofsSpec C17.ProofsRoots C17.ProofsMain C17.Witness.
 
 (* the theorems' hypotheses are satisfiable by a non-trivial schema (all type kinds, an interface,
    wrapping depth 3, default values of every kind, deprecations), on which both claims hold *)
@@ -76,9 +76,15 @@ Theorem c17_complete_exact_refuted_reason_escapes :
 Proof. exact w_reason_escapes_ok. Qed.
 Print Assumptions c17_complete_exact_refuted_reason_escapes.
 
+(* HISTORICAL: before ast.Document.PrintValue separated a trailing quote / backslash of a block string from the
+   closing delimiter, a block string default ending in a quote (say QUOTE hi QUOTE) was reported as a text which reads
+   back as another value, without the last quote (print_string_v0); today it reads back as itself and the witness is
+   inside the claims *)
 Theorem c17_complete_exact_refuted_block_string_reprint :
-  wf_schema w_block_trailing_quote = true /\ lossy_clauses w_block_trailing_quote = [#"block-string-reprint"]
-  /\ exact_of_generate_b w_block_trailing_quote = false /\ roundtrip_b w_block_trailing_quote = false.
+  parse_text (print_string_v0 (blit "say ""hi""") true) = POk (VStr (blit "say ""hi") true) [TStr [] false]
+  /\ value_ok v_block_trailing_quote = true /\ parse_text (print_value v_block_trailing_quote) = POk v_block_trailing_quote []
+  /\ wf_schema w_block_trailing_quote = true /\ lossy_clauses w_block_trailing_quote = []
+  /\ exact_of_generate_b w_block_trailing_quote = true /\ roundtrip_b w_block_trailing_quote = true.
 Proof. exact w_block_trailing_quote_ok. Qed.
 Print Assumptions c17_complete_exact_refuted_block_string_reprint.
 
@@ -96,6 +102,30 @@ Theorem c17_complete_exact_refuted_root_invented :
   /\ lossy_clauses w_root_invented = [] /\ exact_of_generate_b w_root_invented = true /\ roundtrip_b w_root_invented = true.
 Proof. exact w_root_invented_ok. Qed.
 Print Assumptions c17_complete_exact_refuted_root_invented.
+
+(* ---- documents WITHOUT a schema definition (they declare no roots): the merge gives them the default root
+        operation types (object types named Query / Mutation / Subscription), which is what the GraphQL
+        specification says they describe ([described false S]); round trip and exactness follow for them ---- *)
+Theorem c17_no_schema_definition_default_roots : forall S,
+  s_query S = [] -> s_mutation S = None -> s_subscription S = None ->
+  wf_schema (described false S) = true ->
+  generate_doc false S = generate (described false S)
+  /\ (lossy_clauses (described false S) = [] ->
+      exists D C, generate_doc false S = Some D /\ convert D = COk C /\ schema_equiv C (with_base (described false S)))
+  /\ (generate_lossy (described false S) = [] ->
+      exists D, generate_doc false S = Some D /\ complete_exact_b (described false S) D = true).
+Proof. exact no_schema_definition_proof. Qed.
+Print Assumptions c17_no_schema_definition_default_roots.
+
+Theorem c17_no_schema_definition_example :
+  wf_schema (described false ex_no_schema_definition) = true
+  /\ s_mutation (described false ex_no_schema_definition) = Some #"Mutation"
+  /\ match generate_doc false ex_no_schema_definition with
+     | Some d => complete_exact_b (described false ex_no_schema_definition) d
+     | None => false
+     end = true.
+Proof. exact ex_no_schema_definition_ok. Qed.
+Print Assumptions c17_no_schema_definition_example.
 
 (* HISTORICAL: the pre-fix generator was not total on valid schemas: @deprecated(reason: null) *)
 Theorem c17_generate_total_refuted :
